@@ -104,6 +104,47 @@ func (g *G) swapSeq(family string) []Cmd {
 	return []Cmd{c("SET", k, "abcd"), c("GET", k), c("STRLEN", k), c("SETRANGE", k, "0", "wxyz"), c("GET", k), c("GETRANGE", k, "1", "2"), c("SET", k, "12"), c("INCR", k), c("SET", k, "99"), c("GET", k), c("STRLEN", k)}
 }
 
+// listingSeq: every way a key of the family comes into being and goes away again, each bracketed by commands that
+// list or count keys (KEYS, EXISTS, TYPE): whatever the keyspace remembers about its own contents between two commands
+// has to follow every one of these paths.
+func (g *G) listingSeq(family string) []Cmd {
+	p := g.Key() + ":ls"
+	pat := p + "*"
+	if strings.ContainsAny(p, "*?[]\\^-") {
+		pat = "*" // the key itself would read as a pattern
+	}
+	var makers, removers [][]string
+	switch family {
+	case FList:
+		makers = [][]string{{"LPUSH", p + "1", "a"}, {"RPUSH", p + "2", "a", "b"}, {"LMOVE", p + "2", p + "3", "LEFT", "RIGHT"}, {"RENAME", p + "1", p + "4"}}
+		removers = [][]string{{"LPOP", p + "3"}, {"RPOP", p + "2"}, {"LREM", p + "4", "0", "a"}, {"DEL", p + "1", p + "2", p + "3", p + "4"}}
+	case FSet:
+		makers = [][]string{{"SADD", p + "1", "a", "b"}, {"SMOVE", p + "1", p + "2", "a"}, {"SUNIONSTORE", p + "3", p + "1", p + "2"}, {"SINTERSTORE", p + "4", p + "3", p + "1"}, {"SDIFFSTORE", p + "5", p + "3", p + "2"}}
+		removers = [][]string{{"SREM", p + "2", "a"}, {"SPOP", p + "1", "5"}, {"SINTERSTORE", p + "3", p + "3", p + "none"}, {"SMOVE", p + "4", p + "5", "b"}, {"DEL", p + "4", p + "5"}}
+	case FHash:
+		makers = [][]string{{"HSET", p + "1", "f", "1"}, {"HSETNX", p + "2", "f", "1"}, {"HINCRBY", p + "3", "n", "2"}, {"HINCRBYFLOAT", p + "4", "n", "0.5"}, {"RENAME", p + "1", p + "5"}}
+		removers = [][]string{{"HDEL", p + "2", "f"}, {"HDEL", p + "3", "n", "m"}, {"DEL", p + "4"}, {"DEL", p + "5", p + "1"}}
+	case FZSet:
+		makers = [][]string{{"ZADD", p + "1", "1", "a"}, {"ZADD", p + "2", "NX", "2", "b"}, {"ZADD", p + "3", "XX", "3", "c"}, {"ZADD", p + "4", "INCR", "1", "d"}}
+		removers = [][]string{{"ZREM", p + "1", "a"}, {"ZREM", p + "2", "b", "x"}, {"DEL", p + "3", p + "4"}}
+	case FStream:
+		makers = [][]string{{"XADD", p + "1", "5-1", "f", "v"}, {"XADD", p + "2", "NOMKSTREAM", "5-1", "f", "v"}, {"XADD", p + "3", "MAXLEN", "1", "6-1", "f", "v"}, {"RENAME", p + "1", p + "4"}}
+		removers = [][]string{{"DEL", p + "3"}, {"DEL", p + "4", p + "2"}}
+	default:
+		makers = [][]string{{"SETNX", p + "1", "v"}, {"SET", p + "2", "v", "NX"}, {"APPEND", p + "3", "v"}, {"INCR", p + "4"}, {"MSET", p + "5", "v", p + "6", "w"}, {"SETRANGE", p + "7", "2", "v"}, {"INCRBYFLOAT", p + "8", "1.5"},
+			{"SETEX", p + "9", "100000", "v"}, {"DECRBY", p + "a", "3"}, {"RENAME", p + "1", p + "b"}, {"SET", p + "c", "v", "GET"}}
+		removers = [][]string{{"DEL", p + "2"}, {"RENAME", p + "3", p + "4"}, {"SET", p + "5", "v", "EX", "0"}, {"DEL", p + "6", p + "7", p + "8", p + "9"}, {"DEL", p + "a", p + "b", p + "c", p + "4", p + "5"}}
+	}
+	out := []Cmd{c("KEYS", pat)}
+	for _, m := range makers {
+		out = append(out, c(m...), c("KEYS", pat), c("EXISTS", m[1]), c("TYPE", m[1]))
+	}
+	for _, r := range removers {
+		out = append(out, c(r...), c("KEYS", pat), c("EXISTS", r[1]))
+	}
+	return append(out, c("KEYS", "*"))
+}
+
 // errorEcho returns a command that is refused with a message likely to quote one of its arguments.
 func (g *G) errorEcho() Cmd {
 	x := lineBreakers[g.R.Intn(len(lineBreakers))]
@@ -958,6 +999,10 @@ func Program(r *rand.Rand, family string, maxSteps int) []Cmd {
 		}
 		if family != FCluster && family != FMixed && r.Intn(40) == 0 {
 			prog = append(prog, g.swapSeq(family)...)
+			continue
+		}
+		if family != FCluster && family != FMixed && r.Intn(60) == 0 {
+			prog = append(prog, g.listingSeq(family)...)
 			continue
 		}
 		if family != FCluster && len(g.Keys) > 0 && r.Intn(24) == 0 {
